@@ -140,6 +140,7 @@ func genC02(t *rapid.T) statCase {
 		if !c.Flag {
 			q.Pos[1] = 1
 		}
+		q.Pos = append(q.Pos, rapid.SampledFrom([]int{0, 0, 1, 2, 3, 3}).Draw(t, "placement"))
 		c.Seq = q
 	}
 	return c
@@ -156,6 +157,18 @@ func TestC02Sweep(t *testing.T) {
 			i++
 			cases = append(cases, statCase{Test: "longest", Flag: ones, Seq: gen.Seq{Family: "uniform", N: n, Seed: uint64(300 + i)}})
 			cases = append(cases, statCase{Test: "longest", Flag: ones, Seq: gen.Seq{Family: "markov", N: n, Seed: uint64(400 + i), F: 0.6}})
+		}
+	}
+	// each block's longest run placed at the block edges, touching the neighbouring block's longest run across the boundary, in all three regimes
+	for j, spec := range []struct{ n, m, lo, k int }{{4000, 8, 1, 3}, {128 * 300, 128, 4, 5}, {750000, 10000, 10, 6}, {1000000, 10000, 10, 6}, {2000000, 10000, 11, 6}} {
+		for _, ones := range []bool{true, false} {
+			for _, place := range []int{3, 2, 1} {
+				q := gen.Seq{Family: "blocklr", N: spec.n, Seed: uint64(600 + j), A: spec.m, B: spec.lo, Pos: []int{spec.k, 0, place}}
+				if !ones {
+					q.Pos[1] = 1
+				}
+				cases = append(cases, statCase{Test: "longest", Flag: ones, Seq: q})
+			}
 		}
 	}
 	// many blocks, block counts that are not multiples of 2, 4 or 8; lengths just above 2^20 and in the millions
